@@ -4,6 +4,7 @@ import (
 	"go/constant"
 	"go/types"
 	"sort"
+	"strings"
 
 	"golang.org/x/tools/go/ssa"
 )
@@ -337,8 +338,9 @@ func recvType(f *ssa.Function) types.Type {
 	if f.Signature.Recv() != nil {
 		return f.Signature.Recv().Type()
 	}
-	if len(f.Params) > 0 && f.Signature.Recv() == nil && f.Parent() == nil {
-		return types.Typ[types.Invalid]
+	// instantiated generic methods may lose the receiver in their signature
+	if len(f.Params) > 0 && strings.HasPrefix(f.String(), "(") {
+		return f.Params[0].Type()
 	}
 	return types.Typ[types.Invalid]
 }
